@@ -91,6 +91,12 @@ MUTANTS = [
     ("C05", "cuqi/distribution/_normal.py", "            s =  rng.normal(self.mean, self.std, (N,self.dim)).T", "            s =  np.random.normal(self.mean, self.std, (N,self.dim)).T"),
     ("C05", "cuqi/distribution/_gamma.py", "return rng.gamma(shape=self.shape, scale=self.scale, size=(N, self.dim)).T", "return rng.gamma(shape=self.shape, scale=self.rate, size=(N, self.dim)).T"),
     ("C05", "cuqi/distribution/_lognormal.py", "return np.exp(self._normal._sample(N,rng))", "return np.exp(self._normal._sample(N))"),
+    # C09
+    ("C09", "cuqi/experimental/mcmc/_gibbs.py", "        for par_name in self.par_names:\n\n            # Set target for current parameter\n            self._set_target(par_name)", "        snapshot = dict(self.current_samples)\n        for par_name in self.par_names:\n\n            # Set target for current parameter\n            self.samplers[par_name].target = self.target(**{k: v for k, v in snapshot.items() if k != par_name})"),
+    ("C09", "cuqi/experimental/mcmc/_gibbs.py", "                self._refresh_cached_evaluations(sampler)\n", "                pass\n"),
+    ("C09", "cuqi/sampler/_gibbs.py", "        par_names = self.par_names\n\n        # Sample from each conditional distribution\n        for par_name in par_names:\n\n            # Dict of all other parameters to condition on\n            other_params = {par_name_: current_samples[par_name_] for par_name_ in par_names if par_name_ != par_name}",
+     "        par_names = self.par_names\n        start = dict(current_samples)\n\n        # Sample from each conditional distribution\n        for par_name in par_names:\n\n            # Dict of all other parameters to condition on\n            other_params = {par_name_: start[par_name_] for par_name_ in par_names if par_name_ != par_name}"),
+    ("C09", "cuqi/experimental/mcmc/_gibbs.py", "            for _ in range(self.num_sampling_steps[par_name]):", "            for _ in range(max(self.num_sampling_steps[par_name]-1, 1)):"),
     # C10
     ("C10", "cuqi/experimental/mcmc/_conjugate.py", "        dist = Gamma(shape=m/2 + alpha, rate=.5 * np.linalg.norm(L @ (Ax - b))**2 + beta)\n\n        return dist.sample()\n\n\nclass _RegularizedGaussianGammaPair", "        dist = Gamma(shape=m + alpha, rate=.5 * np.linalg.norm(L @ (Ax - b))**2 + beta)\n\n        return dist.sample()\n\n\nclass _RegularizedGaussianGammaPair"),
     ("C10", "cuqi/sampler/_conjugate.py", "        dist = Gamma(shape=m/2+alpha,rate=.5*np.linalg.norm(L@(Ax-b))**2+beta)", "        dist = Gamma(shape=m/2+alpha,rate=np.linalg.norm(L@(Ax-b))**2+beta)"),
